@@ -18,14 +18,20 @@ from ..core.report import where
 
 TECHNIQUE = ("who-may-construct rule for SMT symbols; creator-use vs declaration agreement over the encoding modules; "
              "exhaustiveness of the instruction-class dispatch; keyword/signature agreement of registered encoders")
-LEVEL_TEXT = ("Decides the second sentence of C06 structurally: symbols can only come from the term factory, every kind of term a "
-              "constraint generator asks for is pre-created (hence declared) under the same option, every instruction class the factory "
-              "can produce has an encoder registered with exactly the keyword arguments that encoder (and its `empty` twin) declares, and "
-              "the model reader and the domain constraint range over the same positions. Of the first sentence it decides three necessary "
-              "structural conditions: the happens-before map used to leave order tuples out of the dependency graph under-approximates "
-              "reachability (inductive invariant per update site); every position family of the hard constraints reaches the inclusive "
-              "upper bound; existential order constraints start at the later instruction's lower bound and exclude the position when no "
-              "earlier position exists. Bounded, exhaustive on small instances: each order / multiplicity constraint generator means what it is documented to mean on a three-position instance (C06.g), and each per-instruction stack constraint is the stack machine's transition relation on 3-4 slots in both representations of an unused slot (C06.h). Soundness of the whole constraint system over all models and all sizes is not decided.")
+LEVEL_TEXT = ('Decides the second sentence of C06 structurally: symbols can only come from the term factory, every kind of '
+              'term a constraint generator asks for is pre-created (hence declared) under the same option, every '
+              'instruction class the factory can produce has an encoder registered with exactly the keyword arguments that '
+              'encoder (and its `empty` twin) declares, and the model reader and the domain constraint range over the same '
+              'positions. Of the first sentence it decides three necessary structural conditions: the happens-before map '
+              'used to leave order tuples out of the dependency graph under-approximates reachability (inductive invariant '
+              'per update site); every position family of the hard constraints reaches the inclusive upper bound; '
+              "existential order constraints start at the later instruction's lower bound and exclude the position when no "
+              'earlier position exists. Bounded, exhaustive on small instances: each order / multiplicity constraint '
+              'generator means what it is documented to mean on a three-position instance (C06.g), and each per-instruction '
+              "stack constraint is the stack machine's transition relation on 3-4 slots in both representations of an "
+              'unused slot (C06.h); the mandatory hard-constraint families are generated under every setting of the flags '
+              'the encoding reads (C06.i). Soundness of the whole constraint system over all models and all sizes is not '
+              'decided.')
 EXPLANATION = ("Declarations are a snapshot taken by BlockOptimizer before the lazy constraint generators run, so a creator "
                "that is used but not pre-created in functions_declared yields an undeclared symbol in the SMT-LIB text.")
 NOT_DECIDED = ("that every model decodes to a realizing sequence for instances larger than those of C06.g/h, and the interplay of all "
@@ -433,6 +439,9 @@ def _max_offset(body_nodes, var):
     return best
 
 
+_CTX = None
+
+
 def _range_loops(f):
     """(loop variable, range call, body nodes) for `for v in range(..)` statements and comprehension generators of f"""
     # a local that only ever holds range(..) objects stands for each of them:  positions = range(..) ... for j in positions
@@ -465,16 +474,42 @@ def _range_loops(f):
                 x.lineno = x.lineno + st.lineno - 1
             out.append(cp)
         return out
+    def as_range(it):
+        """the range(..) an iterable expression stands for: a range call, or a call of a same-module helper whose body is `return range(..)`
+        (parameters replaced by the arguments)"""
+        if isinstance(it, ast.Call) and call_name(it) == "range":
+            return it
+        if isinstance(it, ast.Call) and isinstance(it.func, ast.Name) and _CTX is not None:
+            h = _CTX.p.functions.get(f"{f.module.name}.{it.func.id}")
+            if h is not None and not it.keywords:
+                body = [b for b in h.node.body if not (isinstance(b, ast.Expr) and isinstance(b.value, ast.Constant))]
+                if len(body) == 1 and isinstance(body[0], ast.Return) and isinstance(body[0].value, ast.Call) and call_name(body[0].value) == "range" \
+                        and len(it.args) == len(h.params):
+                    sub = {p_: ast.unparse(a_) for p_, a_ in zip(h.params, it.args)}
+                    cp = ast.parse(ast.unparse(body[0].value), mode="eval").body
+
+                    class R(ast.NodeTransformer):
+                        def visit_Name(self, node):
+                            return ast.parse(sub[node.id], mode="eval").body if node.id in sub else node
+                    cp = ast.fix_missing_locations(R().visit(cp))
+                    cp = ast.parse(ast.unparse(cp), mode="eval").body
+                    for x in ast.walk(cp):
+                        for ch in ast.iter_child_nodes(x):
+                            ch._parent = x
+                        if hasattr(x, "lineno"):
+                            x.lineno = getattr(it, "lineno", 1)
+                    return cp
+        return None
     for n in own_nodes(f.node):
-        if isinstance(n, ast.For) and isinstance(n.target, ast.Name) and isinstance(n.iter, ast.Call) and call_name(n.iter) == "range":
-            yield n.target.id, n.iter, n.body
+        if isinstance(n, ast.For) and isinstance(n.target, ast.Name) and as_range(n.iter) is not None:
+            yield n.target.id, as_range(n.iter), n.body
         elif isinstance(n, ast.For) and isinstance(n.target, ast.Name) and isinstance(n.iter, ast.Name) and held.get(n.iter.id) and all(held[n.iter.id]):
             for a in held[n.iter.id]:
                 yield n.target.id, a.value, specialised(n.body, a)
         elif isinstance(n, (ast.ListComp, ast.GeneratorExp, ast.SetComp)):
             for gi, g in enumerate(n.generators):
-                if isinstance(g.target, ast.Name) and isinstance(g.iter, ast.Call) and call_name(g.iter) == "range":
-                    yield g.target.id, g.iter, [n.elt] + [x for h in n.generators[gi + 1:] for x in [h.iter] + h.ifs] + g.ifs
+                if isinstance(g.target, ast.Name) and as_range(g.iter) is not None:
+                    yield g.target.id, as_range(g.iter), [n.elt] + [x for h in n.generators[gi + 1:] for x in [h.iter] + h.ifs] + g.ifs
 
 
 def rule_e(ctx, out):
@@ -484,6 +519,8 @@ def rule_e(ctx, out):
     (L) an existential order constraint  t_j = theta2 -> OR_{i<j} t_i = theta1  is needed at *every* position theta2 may take: the
         family starts at lb(theta2);
     (E) and where the disjunction is empty the constraint is "t_j != theta2", not "no constraint" (an empty OR is false)."""
+    global _CTX
+    _CTX = ctx
     roots = [f for f in ctx.p.functions.values() if f.module.name == f"{ENC_PKG}.synthesis_full_encoding" and f.cls is not None]
     if not roots:
         raise AnalysisError("FullEncoding methods not found")
@@ -662,15 +699,25 @@ def rule_i(ctx, out):
     basic = [ins(0, "PUSH", "basic"), ins(1, "POP", "pop"), ins(2, "NOP", "basic"), ins(3, "SWAP1", "basic"), ins(4, "DUP1", "basic")]
     unint = [ins(5, "MSTORE", "store"), ins(6, "SSTORE", "store"), ins(7, "ADD", "comm"), ins(8, "MLOAD", "non_comm")]
 
-    def family(name, subject=None):
+    def family(name, subject=None, fname=None):
+        """a model of one constraint family: records that it was asked for; `subject` = index of the parameter (of the real function's
+        signature, so positional and keyword calls are the same) whose value identifies what the family is about"""
+        real = [f_ for f_ in ctx.p.functions.values() if f_.name == (fname or name) and f_.module.name.startswith(ENC_PKG) and f_.cls is None]
+        params = real[0].params if real else []
+
         def model(*a, **k):
-            return [(name, subject(*a, **k) if subject else None)]
+            vals = list(a) + [None] * max(0, len(params) - len(a))
+            for kk, vv in k.items():
+                if kk in params:
+                    vals[params.index(kk)] = vv
+            return [(name, vals[subject] if subject is not None and subject < len(vals) else None)]
         return model
     extern = {n_: family(n_) for n_ in ("restrict_t_domain", "l_conflicting_constraints", "direct_conflict_constraints", "stack_encoding_for_terminal",
                                         "expressions_are_distinct", "initialize_stack_variables", "fromnop_encoding", "each_instruction_is_used_at_least_once",
                                         "no_output_before_pop")}
-    extern["stack_encoding_for_position"] = extern["stack_encoding_for_position_empty"] = family("stack-at-position", lambda pos, *a, **k: pos)
-    extern["each_function_is_used_at_most_once"] = family("at-most-once", lambda tf, b, theta, *a, **k: theta)
+    extern["stack_encoding_for_position"] = family("stack-at-position", 0, "stack_encoding_for_position")
+    extern["stack_encoding_for_position_empty"] = family("stack-at-position", 0, "stack_encoding_for_position_empty")
+    extern["each_function_is_used_at_most_once"] = family("at-most-once", 2, "each_function_is_used_at_most_once")
     mi = ModuleInterp(ctx, max_steps=200000, extern=extern, obj_types=(Obj,), inject={"InstructionSubset": subset})
     Full = mi.fake_class(cls)
     n = 0
